@@ -24,6 +24,7 @@ META = {
 
 DIRS = ['/v/d', '/v/e/deep', '/h/w']
 NAMES = ['foo', 'bar', 'foo bar', 'b.o']
+RM_PATTERNS = ['foo', '*d*', 'b*', '/v/d/*', '*', '*e*p/*', 'foo*', '/h/w/foo', '?v*', '*/foo']
 TD_FOR = {'/v': ['/v/.Trash/1000', '/v/.Trash-1000'], '/h': ['/h/.local/share/Trash']}
 
 
@@ -93,7 +94,9 @@ def apply_cmd(m, bag, e, cmd, a, b, day, fresh):
         bag.items.remove((lst[idx][2], lst[idx][1]))
         return ''
     if cmd == 2:
-        pat = ['foo', '*', 'b*', '/v/d/*', 'foo*', '/h/w/foo'][(a + b) % 6]
+        # (the last two start with a wild card and would match directory components of the full path,
+        #  which a relative pattern must never be compared with)
+        pat = RM_PATTERNS[(a * 4 + b) % len(RM_PATTERNS)]
         _, r = scen.run_model(None, [C('rm', [pat], e, cwd='/')], model=m)
         if r[0]['exc']:
             return rt.fail('C09:rm-traceback', r[0]['exc'])
